@@ -64,6 +64,12 @@ def gen_case(rng, ids):
         coll[b] = evs
     ev = (rng.choice(expected) if expected and rng.random() < 0.8 else rng.choice(CLASSES))(i=next(ids))
     bid = rng.choice([None, None, "default", "x", "y"])
+    buf = coll.get(bid or "default", [])
+    if buf and rng.random() < 0.25:
+        # a DIFFERENT event object whose payload equals that of an event already buffered (two results that happen to
+        # carry the same data): it counts like any other event of its type
+        twin = rng.choice(buf)
+        ev = type(twin)(i=twin.i)
     return coll, ev, expected, bid
 
 
